@@ -272,7 +272,76 @@ try:
             want = [(a[0], a[4]) for a in stream]
             if (seen.get('family') != want_family or got != want) and len(failures) < 8:
                 failures.append({'input': {'ip_version_preference': pref, 'resolver_answer': [(a[0].name, a[4][0]) for a in ans]}, 'got': repr([(f.name, a[0]) for f, a in got]), 'want': repr([(f.name, a[0]) for f, a in want])})
+    # IP-address literals go through the resolver too, so that -4 / -6 is honoured for them (the resolver rejects a literal of the other family)
+    def fake_lit(host, port, family=0, type=0, proto=0, flags=0):
+        seen['family'] = family
+        seen['calls'] = seen.get('calls', 0) + 1
+        fam = socket.AF_INET6 if ':' in host else socket.AF_INET
+        if family not in (0, fam):
+            raise socket.gaierror(-9, 'Address family for hostname not supported')
+        return [(fam, socket.SOCK_STREAM, 6, '', (host, port) if fam == socket.AF_INET else (host, port, 0, 0))]
+    socket.getaddrinfo = fake_lit
+    for lit in ('192.0.2.7', '2001:db8::1'):
+        for pref in ([], [4], [6], [4, 6], [6, 4]):
+            cases += 1
+            seen['calls'] = 0
+            s = SSH_Socket(OutputBuffer(), lit, 2222, pref)
+            fam = socket.AF_INET6 if ':' in lit else socket.AF_INET
+            allowed = not ((pref == [4] and fam == socket.AF_INET6) or (pref == [6] and fam == socket.AF_INET))
+            try:
+                got = list(s._resolve())
+                err = None
+            except socket.gaierror as e:
+                got, err = None, e
+            if allowed:
+                ok = got is not None and [(f, a[0], a[1]) for f, a in got] == [(fam, lit, 2222)]
+            else:
+                ok = got is None or got == []
+            if (not ok or seen['calls'] != 1) and len(failures) < 8:
+                failures.append({'input': {'class': 'literal', 'host': lit, 'ip_version_preference': pref}, 'got': {'addresses': repr(got), 'resolver calls': seen['calls']},
+                                 'want': 'the literal itself via the resolver' if allowed else 'no address (the family that was asked for does not match the literal)'})
 finally:
     socket.getaddrinfo = real
+print(json.dumps({'cases': cases, 'failures': failures}))
+'''
+
+NATIVE_MAIN = r'''
+import json, sys, os, tempfile
+sys.path.insert(0, %(native)r)
+import fakenet as F
+cases, failures = 0, []
+per = {}
+def fail(inp, got, want, cls):
+    per[cls] = per.get(cls, 0) + 1
+    if per[cls] <= 3:
+        failures.append({'input': dict(inp, **{'class': cls}), 'got': got, 'want': want})
+def srv():
+    return F.Server(['curve25519-sha256'], ['ssh-ed25519'], ['aes128-ctr'], ['hmac-sha2-256'], hostkeys={'ssh-ed25519': F.ed25519_blob()})
+# a targets file with a default port given by -p: every line is contacted, and labelled, on its own port or the default
+lines = [('a.test', 'a.test', None), ('b.test:2200', 'b.test', 2200), ('192.0.2.5', '192.0.2.5', None), ('2001:db8::1', '2001:db8::1', None), ('[2001:db8::2]:2201', '2001:db8::2', 2201), ('c.test', 'c.test', None)]
+for dflt in (None, 2222):
+    for threads in (1, 3):
+        cases += 1
+        f = tempfile.NamedTemporaryFile('w', suffix='.txt', delete=False); f.write(''.join(l[0] + '\n' for l in lines)); f.close()
+        try:
+            net = F.FakeNet({h: srv() for _, h, _ in lines})
+            st, out = F.run_main(['-n', '--skip-rate-test', '-T', f.name, '--threads', str(threads)] + (['-p', str(dflt)] if dflt else []), net)
+        finally:
+            os.unlink(f.name)
+        inp = {'default port': dflt, 'threads': threads}
+        resolved = [(e[1], e[2]) for e in net.events if e[0] == 'resolve']
+        connects = {}
+        for e in net.events:
+            if e[0] == 'connect':
+                host = [h for h, ip in net.ip_of.items() if ip == e[1][0]][0]
+                connects.setdefault(host, set()).add(e[1][1])
+        for text, host, port in lines:
+            want_port = port or dflt or 22
+            if connects.get(host) != {want_port}:
+                fail(dict(inp, line=text), {'connected to ports': sorted(connects.get(host, []))}, {'port': want_port}, 'target-port')
+            label = ('[%%s]:%%d' %% (host, want_port) if ':' in host else '%%s:%%d' %% (host, want_port)) if want_port != 22 else host
+            if ('(gen) target: ' + label) not in out.split('\n'):
+                got = [l for l in out.split('\n') if l.startswith('(gen) target:') and host in l]
+                fail(dict(inp, line=text), got, '(gen) target: ' + label, 'target-label')
 print(json.dumps({'cases': cases, 'failures': failures}))
 '''
